@@ -55,6 +55,7 @@ var (
 	sm9EncMaster = []*big.Int{
 		bigHex("01EDEE3778F441F8DEA3D9FA0ACC4E07EE36C93F9A08618AF4AD85CEDE1C22"),
 		bigHex("2C4E6F8091A2B3C4D5E6F708192A3B4C5D6E7F8091A2B3C4D5E6F708192A3B4C"),
+		bigHex("02E65B0762D042F51F0D23542B13ED8CFA2E9A0E7206361E013A283905E31F"), // GM/T 0044.5 annex B (key agreement); model self-test only
 	}
 	sm9UIDs = [][]byte{[]byte("Bob"), []byte("Alice"), []byte("c12: a somewhat longer user identifier, 56 bytes in total")}
 )
@@ -618,4 +619,5 @@ func TestC12_SM9MasterKey(t *testing.T) {
 }
 func TestC12_SM9KeyExchange(t *testing.T) {
 	runFamily(t, "sm9kex", 700, 10000, "sm9-kex-init", "sm9-kex-respond")
+	runProtocol(t, "sm9", 60, 2500)
 }
